@@ -577,7 +577,7 @@ def main():
     # ---- (4) index maps
     if run.want('index'):
         pyf = ns
-        for nnz, md in [(2, 3), (3, 3), (4, 3)] + ([(5, 3), (4, 4)] if thorough else []):
+        for nnz, md in [(2, 3), (3, 3), (4, 3)] + ([(3, 4), (2, 5)] if thorough else []):
             h, pos = transpose_idx_harness(nnz, md, kernels)
             st = sx.explore(h, timeout_ms=60000, max_paths=50000)
             run.absorb(st, 'index-maps', bound={'fn': 'get_transpose_idx_for_bidx', 'nnz': nnz, 'indices <': md, 'order': 'any listing order of a structurally symmetric pattern'},
